@@ -57,7 +57,7 @@ def check(chk):
     cfg = f.cfg()
     allprev = [n for n in cfg.nodes_where(lambda n: n.kind == "stmt" and isinstance(n.ast, ast.Assign) and src(n.ast.targets[0]) == "prev_value")]
     store = [n for n in cfg.nodes_where(lambda n: n.kind == "stmt" and isinstance(n.ast, ast.Assign) and src(n.ast.targets[0]) == "self.vars[name]")]
-    chk.require(allprev and store, "C11: Player.__setattr__ anchors vanished")
+    chk.need(allprev and store, "DOM-21", "Player.__setattr__ reads the previous value and stores the new one", f)
     # the previous value is the stored value itself whenever one is stored ('' and 0.0 are values), and 0 only for a variable that is new
     exact = [n for n in allprev if src(n.ast.value) == "self.vars[name]" and cfg.guards_at(n.id).get("name in self.vars") is True] + \
             [n for n in allprev if src(n.ast.value).replace(" ", "") == "self.vars.get(name,0)"]
@@ -73,7 +73,7 @@ def check(chk):
     chk.ob("DOM-21", "the new value is stored under its own name", src(store[0].ast.value) == "value", f.where(store[0].ast), construct=f.ident,
            text="store value")
     ev = [(n, c) for n, c in cfg.calls_named("_send_variable_event")]
-    chk.require(ev, "C11: change event vanished")
+    chk.need(ev, "DOM-21", "Player.__setattr__ posts the change event", f)
     for n, c in ev:
         args = [src(a) for a in c.args]
         ok = args == ["name", "self.vars[name]", "prev_value", "change", "self.vars['number']"]
